@@ -4,7 +4,7 @@ from ..poly import fact_nf, poly, Poly, negate_cmp, GT0, GE0, EQ0, NE0
 from ..describe import describe
 from .. import lemmas
 from .common import configs_for, has_feature
-from .util import Rule, guarded, site_of_block
+from .util import Rule, guarded, site_of_block, check_visits_all
 from . import models
 
 TITLE = "First-fit is greedy-maximal"
@@ -48,6 +48,7 @@ def _r1(prog, rep):
     s = sym_of(body)
     r.check(m.width0 == ("float", "0.0"), "acc-init", "the width accumulator starts at 0", "entry value 0.0",
             "the accumulated width starts at %s" % describe(m.width0, body))
+    check_visits_all(r, body, m.lm, "first-fit's loop over the fragments")
     # find the compared line width: the atom that is not acc/W/P in the overflow comparison
     pw, ps, pW, pP, pWS = poly(m.width), poly(m.start), poly(m.W), poly(m.P), poly(m.WS)
     pidx = poly(m.idx)
